@@ -35,7 +35,7 @@ def run(ctx: Ctx):
     if not r.ok:
         raise tlc.MachineryError(f'design counterexample in Multiclass.tla: {r.violated}')
     ctx.notes['design_invariants'] = ['Inv_C12', 'Inv_C12_FirstSkipped', 'Inv_C12_RawUntouched']
-    n = 320 if ctx.tier == 'quick' else 8000
+    n = 320 if ctx.tier == 'quick' else 2500
     base = ctx.seed * 1_000_003
     seeds = [base + i for i in range(n)]
     cases = []
